@@ -707,3 +707,42 @@ func zzMigrationRun(v13 bool) {
 		zzsymCover("mig_stolen_cookie_refused")
 	}
 }
+
+// The anti-amplification budget is checked BEFORE a return-routability message leaves: an established DTLS 1.2
+// server with RRC negotiated (own connection ID of 1 byte, peer connection ID of 0, 2 or 8 bytes - the message to
+// send carries the PEER's id, so its size is not the size of what was received) has received R bytes (arbitrary,
+// 0..400) in authentic records from the unvalidated address B and sent it nothing yet. WriteRRC(B, path_challenge)
+// is called twice. Proved: the total number of bytes handed to the network for B never exceeds 3*R at any point;
+// a call that would exceed it writes NOTHING and reports the limit; a call within the budget writes exactly one
+// record.
+//
+//symgo:entry covers=within_budget_written,over_budget_nothing_written
+func zzWriteRRCWithinBudget() {
+	nRemote := []int{0, 2, 8}[zzsymChoice("peer_cid_len", 3)]
+	c, pc, suite, _ := zzSwConn(1, nRemote, true)
+	suite.authOK = true
+	received := zzsymInt("received_from_candidate")
+	zzsymAssume(received >= 0 && received <= 400)
+	active := func() net.Addr { return zzSwAddrA }
+	c.rrc.WrapReplayMarker(func() bool { return true }, zzSwAddrB, received, active, true)()
+	var cookie [protocol.ReturnRoutabilityCheckCookieLength]byte
+	copy(cookie[:], zzsymBytes("cookie", protocol.ReturnRoutabilityCheckCookieLength))
+	sent := 0
+	for k := 0; k < 2; k++ {
+		before := len(pc.writes)
+		err := returnRoutabilityConn{conn: c}.WriteRRC(context.Background(), zzSwAddrB, protocol.ReturnRoutabilityCheckPathChallenge, cookie)
+		wrote := pc.writes[before:]
+		for _, w := range wrote {
+			zzsymAssert(w.to == zzSwAddrB, "rrc_message_goes_to_the_candidate")
+			sent += len(w.data)
+		}
+		zzsymAssert(sent <= 3*received, "bytes_to_unvalidated_address_within_three_times_received")
+		if err != nil {
+			zzsymAssert(len(wrote) == 0, "refused_rrc_message_is_not_written")
+			zzsymCover("over_budget_nothing_written")
+		} else {
+			zzsymAssert(len(wrote) == 1, "accepted_rrc_message_is_one_record")
+			zzsymCover("within_budget_written")
+		}
+	}
+}
